@@ -34,6 +34,8 @@ structure InvA (cfg : Cfg) (s : State) : Prop where
   coll : s.collected = s.seen.filter (isHashed cfg)
   rfresh : s.main = .startReaderChk ∨ s.main = .startReader → s.rpc = .notStarted
   fresh : ∀ b, startBound s.main = some b → ∀ j p, b ≤ j → s.hs[j]? = some p → p = .notStarted
+  full : (s.rpc = .closing ∨ s.rpc = .done) → s.stop = false → s.rexc = false →
+    (inFlight s).length = cfg.items.length
 
 theorem inFlight_def (s : State) :
     inFlight s = s.seen ++ s.hq.filterMap id ++ s.hs.filterMap hk ++ s.pq.filterMap id := by
@@ -44,7 +46,8 @@ theorem InvA.init (cfg : Cfg) : InvA cfg (init cfg) := by
     rw [inFlight_def]
     simp [Pipeline.init, hk]
   refine ⟨by rw [h]; simp, by simp [Pipeline.init], fun _ => h, by rw [h]; simp,
-    by simp [Pipeline.init, mainExc, internalExc], by simp [Pipeline.init], by simp [Pipeline.init], ?_⟩
+    by simp [Pipeline.init, mainExc, internalExc], by simp [Pipeline.init], by simp [Pipeline.init], ?_,
+    by simp [Pipeline.init]⟩
   intro b _ j p _ hj
   simp only [Pipeline.init, List.getElem?_replicate] at hj
   split at hj <;> simp_all
@@ -55,10 +58,14 @@ theorem InvA.of_perm {cfg : Cfg} {s s' : State} (h : InvA cfg s)
     (hn : ¬ internalExc (mainExc s'.main))
     (hc : s'.collected = s'.seen.filter (isHashed cfg))
     (hrf : s'.main = .startReaderChk ∨ s'.main = .startReader → s'.rpc = .notStarted)
-    (hf : ∀ b, startBound s'.main = some b → ∀ j p, b ≤ j → s'.hs[j]? = some p → p = .notStarted) :
+    (hf : ∀ b, startBound s'.main = some b → ∀ j p, b ≤ j → s'.hs[j]? = some p → p = .notStarted)
+    (hsr : (s'.stop = false → s.stop = false) ∧ (s'.rexc = false → s.rexc = false) := by
+      first | exact ⟨fun h => h, fun h => h⟩ | simp) :
     InvA cfg s' := by
   have hl := hp.length_eq
-  refine ⟨?_, ?_, ?_, ?_, hn, hc, hrf, hf⟩
+  refine ⟨?_, ?_, ?_, ?_, hn, hc, hrf, hf, ?_⟩
+  rotate_right
+  · intro h1 h2 h3; rw [hl]; exact h.full (hr ▸ h1) (hsr.1 h2) (hsr.2 h3)
   · rw [hl]; exact hp.trans h.perm
   · intro k hk; rw [hl]; exact h.putting k (hr ▸ hk)
   · intro he
@@ -84,8 +91,9 @@ theorem InvA.collect {cfg : Cfg} {s s' : State} {k : Nat} {rest : List (Option N
     (hq : s.hq = some k :: rest) (hq' : s'.hq = rest) (hseen : s'.seen = s.seen ++ [k])
     (hcoll : s'.collected = if isHashed cfg k then s.collected ++ [k] else s.collected)
     (hhs : s'.hs = s.hs) (hpq : s'.pq = s.pq) (hr : s'.rpc = s.rpc)
-    (hm : startBound s'.main = none) (hn : ¬ internalExc (mainExc s'.main)) : InvA cfg s' := by
-  refine h.of_perm ?_ hr hn ?_ ?_ ?_
+    (hm : startBound s'.main = none) (hn : ¬ internalExc (mainExc s'.main))
+    (hst : s'.stop = false → s.stop = false) (hrx : s'.rexc = s.rexc) : InvA cfg s' := by
+  refine h.of_perm ?_ hr hn ?_ ?_ ?_ ⟨hst, fun h => hrx ▸ h⟩
   · simp [inFlight_def, hq, hq', hseen, hhs, hpq]
   · rw [hcoll, hseen, h.coll]
     by_cases hk : isHashed cfg k <;> simp [hk]
@@ -105,7 +113,7 @@ theorem InvA.not_seen {cfg : Cfg} {s : State} {k : Nat} {rest : List (Option Nat
 theorem InvA.main {cfg : Cfg} {s s' : State} (h : InvA cfg s) (hs : stepMain cfg s = some s') :
     InvA cfg s' := by
   have hA := h
-  obtain ⟨hperm, hput, hearly, hbound, hnoInt, hcoll, hrfresh, hfresh⟩ := h
+  obtain ⟨hperm, hput, hearly, hbound, hnoInt, hcoll, hrfresh, hfresh, hfull⟩ := h
   have hs0 := hs
   unfold stepMain at hs
   split at hs
@@ -117,7 +125,7 @@ theorem InvA.main {cfg : Cfg} {s s' : State} (h : InvA cfg s) (hs : stepMain cfg
       have hi : ∀ r m, inFlight { s with rpc := r, main := m } = [] := by
         intro r m; rw [← he]; simp [inFlight_def]
       refine ⟨by simp [hi], by simp, fun _ => hi _ _, by simp [hi], by simp [mainExc, internalExc],
-        hcoll, by simp, ?_⟩
+        hcoll, by simp, ?_, by simp⟩
       rw [hm] at hfresh
       simp only [startBound] at hfresh ⊢
       grind
@@ -135,13 +143,13 @@ theorem InvA.main {cfg : Cfg} {s s' : State} (h : InvA cfg s) (hs : stepMain cfg
       subst hs0
       unfold collectNext
       split
-      · exact hA.collect hq rfl rfl rfl rfl rfl rfl rfl (by simp [mainExc, internalExc])
+      · exact hA.collect hq rfl rfl rfl rfl rfl rfl rfl (by simp [mainExc, internalExc]) (by simp) rfl
       · split
         · exact hA.collect hq rfl rfl rfl rfl rfl rfl (by simp [collectItem, hm, startBound])
-            (by simp [collectItem, hm, mainExc, internalExc])
+            (by simp [collectItem, hm, mainExc, internalExc]) (fun h => h) rfl
         · exact hA.collect hq rfl rfl rfl rfl rfl rfl (by simp [collectItem, hm, startBound])
-            (by simp [collectItem, hm, mainExc, internalExc])
-        · exact hA.collect hq rfl rfl rfl rfl rfl rfl rfl (by simp [mainExc, internalExc])
+            (by simp [collectItem, hm, mainExc, internalExc]) (by simp) rfl
+        · exact hA.collect hq rfl rfl rfl rfl rfl rfl rfl (by simp [mainExc, internalExc]) (by simp) rfl
   all_goals
     rename_i hm
     rw [hm] at hfresh hnoInt hrfresh
@@ -186,6 +194,7 @@ theorem InvA.readerNext {cfg : Cfg} {t : State} {k : Nat}
   have hcoll := readerNext_collected cfg t k
   have hseen := readerNext_seen cfg t k
   have hhs := readerNext_hs cfg t k
+  have hstop := readerNext_stop cfg t k
   have hrpc : (Pipeline.readerNext cfg t k).rpc = .closing ∨
       ((Pipeline.readerNext cfg t k).rpc = .putting k ∧ k < cfg.items.length) := by
     unfold Pipeline.readerNext
@@ -196,8 +205,25 @@ theorem InvA.readerNext {cfg : Cfg} {t : State} {k : Nat}
       · split
         · simp
         · right; simp; omega
+  have hfull : (Pipeline.readerNext cfg t k).stop = false → (Pipeline.readerNext cfg t k).rexc = false →
+      ((Pipeline.readerNext cfg t k).rpc = .putting k ∨ cfg.items.length ≤ k) := by
+    rw [hstop]
+    unfold Pipeline.readerNext
+    split
+    · simp
+    · split
+      · intro _ _; right; assumption
+      · split
+        · intro h1; simp_all
+        · intro _ _; left; rfl
   refine ⟨by rw [hi]; exact hperm, ?_, ?_, by rw [hi]; omega, by rw [hmain]; exact hn,
-    by rw [hcoll, hseen]; exact hc, ?_, by rw [hmain, hhs]; exact hf⟩
+    by rw [hcoll, hseen]; exact hc, ?_, by rw [hmain, hhs]; exact hf, ?_⟩
+  rotate_right
+  · intro h1 h2 h3
+    rw [hi]
+    rcases hfull h2 h3 with h4 | h4
+    · rw [h4] at h1; simp at h1
+    · omega
   · intro k' hk'
     rw [hi]
     rcases hrpc with h | ⟨h, hlt⟩ <;> rw [h] at hk'
@@ -241,10 +267,11 @@ theorem InvA.reader {cfg : Cfg} {s s' : State} (h : InvA cfg s) (hs : stepReader
         simp [inFlight_def]
       have hm := hmain (by simp [hr])
       refine ⟨by rw [hi]; exact h.perm, by simp, by simp, by rw [hi]; exact h.bound, h.noInt, h.coll,
-        ?_, h.fresh⟩
-      intro hx; rcases hx with hx | hx
-      · exact absurd hx hm.1
-      · exact absurd hx hm.2
+        ?_, h.fresh, ?_⟩
+      · intro hx; rcases hx with hx | hx
+        · exact absurd hx hm.1
+        · exact absurd hx hm.2
+      · intro _ h2 h3; rw [hi]; exact h.full (Or.inl hr) h2 h3
     · simp at hs
   · simp at hs
 
@@ -340,10 +367,11 @@ theorem InvA.hasher {cfg : Cfg} {s s' : State} {i : Nat} {b : Bool} (h : InvA cf
 theorem InvA.janitor {cfg : Cfg} {s s' : State} {b : Bool} (h : InvA cfg s)
     (hs : stepJanitor cfg s b = some s') : InvA cfg s' := by
   have key : ∀ t : State, t.seen = s.seen → t.hq.filterMap id = s.hq.filterMap id → t.hs = s.hs →
-      t.pq = s.pq → t.rpc = s.rpc → t.main = s.main → t.collected = s.collected → InvA cfg t := by
-    intro t h1 h2 h3 h4 h5 h6 h7
+      t.pq = s.pq → t.rpc = s.rpc → t.main = s.main → t.collected = s.collected →
+      t.stop = s.stop → t.rexc = s.rexc → InvA cfg t := by
+    intro t h1 h2 h3 h4 h5 h6 h7 h8 h9
     refine h.of_perm (by simp [inFlight_def, h1, h2, h3, h4]) h5 (h6 ▸ h.noInt) (by rw [h7, h1]; exact h.coll)
-      (by rw [h6, h5]; exact h.rfresh) (by rw [h6, h3]; exact h.fresh)
+      (by rw [h6, h5]; exact h.rfresh) (by rw [h6, h3]; exact h.fresh) ⟨fun h => h8 ▸ h, fun h => h9 ▸ h⟩
   unfold stepJanitor at hs
   simp only [enterSpin, enterPrune] at hs
   repeat' split at hs
